@@ -39,6 +39,9 @@ func main() {
 
 	opt := newDefaultOptions()
 	opt.WorkDir = *workDir
+	// INCR / SET NX|XX are read-modify-write transactions: they are only atomic
+	// when the engine checks read/write conflicts at commit.
+	opt.DetectConflicts = true
 	if opt.MaxBatchCount <= 0 {
 		opt.MaxBatchCount = int64(opt.WriteBatchMaxCount)
 		if opt.MaxBatchCount <= 0 {
